@@ -24,6 +24,8 @@ TEXT = {
          "At the model level TLC explores every insertion order (every ordered input is a state) and checks that the outcome is the order-free one; on the code every case built from Go maps is executed 8 (quick) / 32 (thorough) times with rebuilt maps, and all outcomes must equal the specification's single outcome, or lie in the listed deviation's outcome set for conflicting inputs."),
  "C20": ("paths", "TLA+ index-vs-name rule (UcfgPaths) checked by TLC over a spelling table x MaxIdx x EnableNumKeys x position; exhaustive replay as map key / struct tag / setter name with read-back; random literals trace-validated",
          "The rule 'index iff integer literal and 0<=n<=MaxIdx and not a single numeric key under EnableNumKeys' is the specification's; TLC checks the allocation bound and name round-trip on the whole table; every combination is replayed three ways on the code and the resulting structure, getter/Has/Remove read-back and list length are compared; random literals in every Go syntax are validated by TLC."),
+ "C17": ("parse", "TLA+ transcription of the recursive-descent value parser (UcfgParseValue) over character sequences: TLC checks Parse(Render(doc)) = doc and totality; exhaustive replay of all short strings under four parser configs + JSON documents; random encoding/json documents trace-validated",
+         "The specification parses the same characters as the code (stop sets, trimming, trailing commas, top-level comma lists, quoting, escapes); every string up to the length bound is replayed under DefaultConfig/EnvConfig/NoopConfig/IgnoreCommas and the value or error/panic outcome compared; JSON documents rendered by the spec (compact, indented) must read back as the data they denote; 5k-100k random documents written by encoding/json are validated by TLC against the same parser."),
 }
 NOTE = "bounded universes (stated in evidence.rule); projection through the public API; TLC/JVM/Go runtime trusted; Ideal layer + named deviations listed in known_findings.json"
 
@@ -37,6 +39,8 @@ m = dict(
                source_commits=[], add_only=True),
     
     engines=[
+        dict(name="parse", path="spec/UcfgParseValue.tla", serves_properties=["C17", "C07", "C19"],
+             kind_free_text="TLA+ recursive-descent parser over character sequences, JSON rendering; Gen_Parse/Trace_Parse; harness/cmd/ucfgconf/fam_parse.go"),
         dict(name="paths", path="spec/UcfgPaths.tla", serves_properties=["C20"],
              kind_free_text="TLA+ rule for list-index segments; Gen_Paths/Trace_Paths; harness/cmd/ucfgconf/fam_paths.go"),
         dict(name="norm", path="spec/UcfgNormalize.tla", serves_properties=["C05", "C09", "C18"],
